@@ -124,7 +124,87 @@ theorem every_struct_roundtrips (t : TypeS) (ht : t ∈ cborSchema) (vals : List
   simp only [TypeS.wf, Bool.and_eq_true] at this
   exact derive_roundtrip t.fields vals dflt hlen this.1.1.1
 
+/-- the whole record at once: decoding what was encoded is the record itself, with the skipped fields at their
+default — as one equation between lists, not field by field -/
+theorem derive_roundtrip_record (fs : List FieldS) (vals : List V) (dflt : V) (hlen : vals.length = fs.length)
+    (hwf : fieldsWF fs = true) :
+    decodeFields fs (encodeFields fs vals) dflt
+      = (fs.zip vals).map (fun p => some (if p.1.skip then dflt else p.2)) := by
+  apply List.ext_getElem?
+  intro k
+  by_cases hk : k < fs.length
+  · have hf : fs[k]? = some fs[k] := List.getElem?_eq_getElem hk
+    have hv : vals[k]? = some (vals[k]'(by omega)) := List.getElem?_eq_getElem (by omega)
+    rw [derive_roundtrip fs vals dflt hlen hwf k _ _ hf hv]
+    have hz : (fs.zip vals)[k]? = some (fs[k], vals[k]'(by omega)) := List.getElem?_zip_eq_some.2 ⟨hf, hv⟩
+    simp [List.getElem?_map, hz]
+  · have h1 : (decodeFields fs (encodeFields fs vals) dflt)[k]? = none := by
+      apply List.getElem?_eq_none; simp only [decodeFields, List.length_map]; omega
+    have h2 : ((fs.zip vals).map (fun p => some (if p.1.skip then dflt else p.2)))[k]? = none := by
+      apply List.getElem?_eq_none; simp only [List.length_map, List.length_zip]; omega
+    rw [h1, h2]
+
+/-- enum dispatch: minicbor writes a variant's tag and the decoder takes the first variant carrying that tag. With
+pairwise distinct tags the variant found for the tag of `v` is `v` — a duplicated `#[n(k)]` on two variants (which
+still compiles) is what this excludes -/
+theorem variant_dispatch : ∀ (vs : List VariantS) (v : VariantS) (i : Nat),
+    (vs.filterMap (·.idx)).Nodup → v ∈ vs → v.idx = some i →
+    vs.find? (fun w => w.idx == some i) = some v := by
+  intro vs
+  induction vs with
+  | nil => intro v i _ hm; cases hm
+  | cons w rest ih =>
+    intro v i hnd hm hi
+    rw [List.find?_cons]
+    rcases List.mem_cons.mp hm with rfl | hm'
+    · simp [hi]
+    · by_cases hw : w.idx = some i
+      · -- then `i` occurs twice among the tags
+        exfalso
+        have : i ∈ rest.filterMap (·.idx) := List.mem_filterMap.2 ⟨v, hm', hi⟩
+        simp only [List.filterMap_cons, hw, List.nodup_cons] at hnd
+        exact hnd.1 this
+      · have hnd' : (rest.filterMap (·.idx)).Nodup := by
+          cases hwi : w.idx with
+          | none => simpa [List.filterMap_cons, hwi] using hnd
+          | some j => simp only [List.filterMap_cons, hwi, List.nodup_cons] at hnd; exact hnd.2
+        have : (w.idx == some i) = false := by simpa using hw
+        rw [this]
+        exact ih v i hnd' hm' hi
+
+/-- applied to the generated table: every variant of every enum of the binary format is found again by its tag, and
+its fields round-trip as a record -/
+theorem every_variant_roundtrips (t : TypeS) (ht : t ∈ cborSchema) (v : VariantS) (hv : v ∈ t.variants)
+    (vals : List V) (dflt : V) (hlen : vals.length = v.fields.length) :
+    (∃ i, v.idx = some i ∧ t.variants.find? (fun w => w.idx == some i) = some v) ∧
+    decodeFields v.fields (encodeFields v.fields vals) dflt = vals.map some := by
+  have hall := schema_wf
+  rw [List.all_eq_true] at hall
+  have hwf := hall t ht
+  simp only [TypeS.wf, Bool.and_eq_true, List.all_eq_true, decide_eq_true_eq] at hwf
+  obtain ⟨⟨_, hvar⟩, hnd⟩ := hwf
+  obtain ⟨⟨hidx, hfw⟩, hnoskip⟩ := hvar v hv
+  obtain ⟨i, hi⟩ := Option.isSome_iff_exists.1 hidx
+  refine ⟨⟨i, hi, variant_dispatch t.variants v i hnd hv hi⟩, ?_⟩
+  rw [derive_roundtrip_record v.fields vals dflt hlen hfw]
+  apply List.ext_getElem?
+  intro k
+  simp only [List.getElem?_map]
+  by_cases hk : k < v.fields.length
+  · have hf : v.fields[k]? = some v.fields[k] := List.getElem?_eq_getElem hk
+    have hvk : vals[k]? = some (vals[k]'(by omega)) := List.getElem?_eq_getElem (by omega)
+    have hns := hnoskip _ (List.mem_of_getElem? hf)
+    have hns' : (v.fields[k]).skip = false := by simpa using hns
+    have hz : (v.fields.zip vals)[k]? = some (v.fields[k], vals[k]'(by omega)) :=
+      List.getElem?_zip_eq_some.2 ⟨hf, hvk⟩
+    simp [hz, hvk, hns']
+  · have h1 : (v.fields.zip vals)[k]? = none := by
+      apply List.getElem?_eq_none; simp only [List.length_zip]; omega
+    have h2 : vals[k]? = none := by apply List.getElem?_eq_none; omega
+    simp [h1, h2]
+
 /-! ### Non-vacuity -/
+example : (cborSchema.filter (fun t => !t.variants.isEmpty)).length > 3 := by decide +kernel
 example : cborSchema.length > 20 ∧ (cborSchema.find? (fun t => t.name == "TextSelection")).isSome = true := by decide +kernel
 example : fieldsWF [⟨"a", some 0, false, none, none, "u8"⟩, ⟨"b", some 0, false, none, none, "u8"⟩] = false := by decide
 
